@@ -16,6 +16,17 @@ type Extension interface {
 	GetTrack(stopTimeUpdate *gtfsrt.TripUpdate_StopTimeUpdate) *string
 }
 
+// StatefulExtension is implemented by extensions that accumulate state while a feed is parsed.
+//
+// The realtime parser calls NewParse once per feed and uses the returned extension for that
+// feed only, so that one extension value can be reused (or shared) across parses.
+type StatefulExtension interface {
+	Extension
+
+	// NewParse returns an extension with the same options and fresh per-feed state.
+	NewParse() Extension
+}
+
 type UpdateTripResult struct {
 	// Whether this trip should be skipped.
 	ShouldSkip bool
